@@ -36,10 +36,22 @@ def main(pid, args):
 
 # ------------------------------------------------------------------ common steps
 
+def has_props(pid):
+    return os.path.exists(os.path.join(lv.COQ, 'Props', pid + '.v'))
+
+
+def level_for(pid):
+    return 'proof' if has_props(pid) else 'translation_validation'
+
+
 def proof_step(ck, pid):
-    """steps 1-2: build the development, audit it, re-check the property file"""
+    """steps 1-2: build the development, audit it, re-check the property file (when the property has one)"""
     ok, msg = lv.build_model()
     st = {'build_ok': ok, 'build_msg': msg, 'theorems': [], 'props_ok': False, 'audit': []}
+    if ok and not has_props(pid):
+        st['audit'] = lv.audit_sources()
+        st['props_ok'] = True
+        return st
     if not ok:
         lv.log('proof build FAILED:\n' + msg)
         return st
@@ -148,7 +160,7 @@ def report_build_problems(ck, items, pid):
 # ------------------------------------------------------------------ C01 / C02 (tree properties)
 
 def tree_check(work, pid, oracle, level_text, gen_opts=None, need=None, cases_fn=None, with_k1=True, n_quick=(40, 40), n_thorough=(600, 120), maxlen=30, prefilter=None):
-    ck = lv.Check(pid, 'proof')
+    ck = lv.Check(pid, level_for(pid))
     quick = ck.tier == 'quick'
     st = proof_step(ck, pid)
     lv.build_impl(bins=False)
@@ -314,7 +326,7 @@ def analysis_inputs(ck, work, n_small, n_gen):
 def analysis_check(work, pid, level_text):
     import k2
     import textbook
-    ck = lv.Check(pid, 'proof')
+    ck = lv.Check(pid, level_for(pid))
     quick = ck.tier == 'quick'
     st = proof_step(ck, pid)
     lv.build_impl(bins=False)
@@ -559,3 +571,355 @@ def check_C16(work, args):
     tree_check(work, 'C16', oracles.make_oracle_c16(),
                'skipped tokens are transparent: K3 correspondence + pairwise comparison of parses with and without trivia',
                gen_opts=dict(skip=1.0), cases_fn=cases_c16, with_k1=True)
+
+
+# ------------------------------------------------------------------ C19 (driver)
+def check_C19(work, args):
+    import k5
+    ck = lv.Check('C19', 'proof')
+    st = proof_step(ck, 'C19')
+    lv.build_impl(bins=True)
+    total, ran, bad, samples = k5.run_table(work)
+    # direct oracle on the observed behaviour (independent of the model): the property's clauses
+    viol = []
+    for d in bad:
+        viol.append(d)
+    for d in viol[:3]:
+        what = 'llw %s on a %s grammar (lexer.rs %s, parser.rs %s): wrote %s and exited %s; the driver model (Cli.v, which satisfies the property on every row) predicts %s and exit %s' % (
+            d['cmd'], d['verdict'], 'exists' if d['lexer_exists'] else 'absent', 'exists' if d['parser_exists'] else 'absent',
+            d['observed_effects'] or 'nothing', d['observed_exit'], d['model_effects'] or 'nothing', d['model_exit'])
+        ck.violation(what, d)
+    if not viol and proof_broken(st):
+        ck.violation('proof: ' + proof_summary(st), {'broken': proof_summary(st)}, no_input=True)
+    nthm = len(st['theorems'])
+    ck.cov = {
+        'obligations': nthm + 1, 'discharged': (nthm if not proof_broken(st) else 0) + (0 if bad else 1),
+        'checker_cmd': 'make -C coq ; coqc -Q . LV Props/C19.v (Print Assumptions parsed) ; source audit grep',
+        'trusted_base': lv.TRUSTED_BASE + ['file system behaviour (creation, permissions, mtime) is the real OS, observed by snapshots before/after each run'],
+        'theorems': st['theorems'],
+        'explanation': 'theorem over the complete finite domain of the driver model; K5 runs the real binary on every realisable row and compares created/modified files and exit status with the model',
+        'programs': 4, 'disagreements_checked': ran, 'evaluations': ran, 'distinct_nontrivial': ran - len(bad),
+        'rule': 'all %d rows of Cli.all_rows that can be realised as root (an unwritable default output directory cannot: %d rows skipped) x one grammar per verdict; non-trivial = every row (each is a distinct configuration)' % (total, 7680 - total),
+        'exhaustive': True, 'k5_disagreements': len(bad), 'samples': samples,
+    }
+    ck.finish()
+
+
+# ------------------------------------------------------------------ C11 (accepted grammars compile, rejected write nothing)
+WEIRD_NAMES = ['foo_bar', 'fooBar', 'foo__bar', 'a_b', 'aB', 'a_B', 'r_1', 'error_x', 'eOF', 'node', 'rule_x', 'parse', 'type_', 'self_x', 'x_', 'new']
+
+
+def rename_rules(g, rng):
+    """adversarial names for rules, rename targets and created nodes"""
+    mp = {}
+    pool = list(WEIRD_NAMES)
+    rng.shuffle(pool)
+    for n, e, r in g.rules[1:]:
+        if pool and rng.random() < 0.6:
+            mp[n] = pool.pop()
+
+    def rn(x):
+        k = x[0]
+        if k == 'rule':
+            return ('rule', mp.get(x[1], x[1]))
+        if k in ('alt', 'choice', 'cat'):
+            return (k, [rn(y) for y in x[1]])
+        if k in ('star', 'plus', 'opt', 'paren'):
+            return (k, rn(x[1]))
+        if k == 'rename' and rng.random() < 0.5:
+            return ('rename', rng.choice(WEIRD_NAMES))
+        if k == 'create' and x[2] is not None and rng.random() < 0.5:
+            return ('create', x[1], rng.choice(WEIRD_NAMES))
+        return x
+    g.rules = [(mp.get(n, n), e, rn(r) if r is not None else None) for n, e, r in g.rules]
+    g.parts = [mp.get(p, p) for p in g.parts]
+    return g
+
+
+def pascal_collision(dump):
+    from textbook import pascal
+    names = set(['error'])
+    if dump['sema']['parts']:
+        names.add('part')
+    for r in dump['rules']:
+        if r['name']:
+            names.add(r['name'])
+    for nm, refs in dump['sema']['rule_bindings']:
+        names.add(nm)
+    seen = {}
+    for n in names:
+        p = pascal(n)
+        if p in seen and seen[p] != n:
+            return True
+        seen[p] = n
+    return False
+
+
+def return_after_commit_in_choice(dump):
+    """a `&` in a non-final alternative of an ordered choice behind a commit `~`: it is emitted as
+    `return;` inside the alternative's closure, which returns Option<()>"""
+    found = [False]
+
+    def scan_alt(x, committed):
+        # returns whether a commit has been passed (sequentially)
+        k = x['k']
+        if k == 'commit':
+            return True
+        if k == 'return' and committed:
+            found[0] = True
+        if k == 'concat':
+            for o in x['ops']:
+                committed = scan_alt(o, committed)
+            return committed
+        for o in (x.get('ops') or []):
+            scan_alt(o, committed)
+        if x.get('op') is not None:
+            scan_alt(x['op'], committed)
+        return committed
+
+    def visit(x):
+        if x['k'] == 'choice':
+            for alt in x['ops'][:-1]:
+                scan_alt(alt, False)
+        for o in (x.get('ops') or []):
+            visit(o)
+        if x.get('op') is not None:
+            visit(x['op'])
+    for r in dump['rules']:
+        if r['regex'] is not None:
+            visit(r['regex'])
+    return found[0]
+
+
+C11_CLASSES = {}
+
+
+def check_C11(work, args):
+    ck = lv.Check('C11', 'proof')
+    quick = ck.tier == 'quick'
+    st = proof_step(ck, 'C11')
+    lv.build_impl(bins=True)
+    n = 150 if quick else 2500
+    gs = []
+    for i in range(n):
+        g = gen_grammar.Gen(ck.rng, dict(empty_rule=0.15, parts=0.4, rename=0.4, marker=0.3, whole_create=0.4, pred=0.3)).grammar()
+        if ck.rng.random() < 0.35:
+            g = rename_rules(g, ck.rng)
+        gs.append(g)
+    extra = []
+    for f in sorted(glob.glob(os.path.join(lv.VERIF, 'corpus', 'c11_*.llw'))):
+        extra.append(open(f).read())
+    items = k3.prepare(os.path.join(work, 'c11'), gs + [None] * len(extra), [None] * len(gs) + extra)
+    acc = [it for it in items if it['res'].get('wrote')]
+    rej = [it for it in items if not it['res'].get('accepted') and not it['res'].get('panic')]
+    k3.build_all(acc)
+    failures = []
+    known_hits = 0
+    kfs = [e for e in lv.known_findings() if 'C11' in e['properties']]
+    for it in items:
+        if it['res'].get('panic'):
+            failures.append({'grammar': it['text'], 'what': 'lelwel panicked while analysing / generating (in-process harness)'})
+    for it in acc:
+        if 'terror' in it or 'error' in it:
+            continue
+        if not it['pb'].rustc_ok:
+            classes = {'pascal_case_collision': pascal_collision, 'return_after_commit_in_choice': return_after_commit_in_choice}
+            if any(e['class'] in classes and classes[e['class']](it['res']['dump']) for e in kfs):
+                known_hits += 1
+                continue
+            failures.append({'grammar': it['text'], 'what': 'accepted grammar, but the generated parser does not compile: ' + it['pb'].rustc_err[:600]})
+    tprobs = [it for it in acc if 'terror' in it]
+    # the real binary: graph output on accepted grammars, no parser file for rejected ones
+    import subprocess
+
+    def cli(it_flags):
+        it, flags = it_flags
+        d = os.path.join(it['dir'], 'cli')
+        os.makedirs(d, exist_ok=True)
+        shutil.copy(os.path.join(it['dir'], 'g.llw'), os.path.join(d, 'g.llw'))
+        r = subprocess.run([lv.LLW_BIN] + flags + ['g.llw'], cwd=d, stdout=subprocess.PIPE, stderr=subprocess.PIPE, text=True, timeout=120)
+        return r.returncode, r.stderr[-400:], sorted(os.listdir(d))
+    from concurrent.futures import ThreadPoolExecutor
+    sample_acc = acc[:60 if quick else 600]
+    sample_rej = rej[:80 if quick else 800]
+    with ThreadPoolExecutor(16) as ex:
+        ra = list(ex.map(cli, [(it, ['-g']) for it in sample_acc]))
+        rr = list(ex.map(cli, [(it, ['-g']) for it in sample_rej]))
+    for it, (code, err, files) in zip(sample_acc, ra):
+        if code != 0 or 'generated.rs' not in files or 'parser.gv' not in files:
+            failures.append({'grammar': it['text'], 'what': '`llw -g` on an accepted grammar exited %s, files %s: %s' % (code, files, err.replace('\n', ' ')[-300:])})
+    for it, (code, err, files) in zip(sample_rej, rr):
+        if 'generated.rs' in files or 'parser.gv' in files or 'lexer.rs' in files or 'parser.rs' in files:
+            failures.append({'grammar': it['text'], 'what': 'lelwel reported an error (exit %s) but wrote %s' % (code, [f for f in files if f != 'g.llw'])})
+        elif code != 1:
+            failures.append({'grammar': it['text'], 'what': '`llw` on a grammar with an error exited %s: %s' % (code, err.replace('\n', ' ')[-300:])})
+    codes = collections.Counter(c['code'] for it in rej for c in it['res'].get('diags', []) if c['severity'] == 'error')
+    for f in failures[:3]:
+        ck.violation(f['what'], f)
+    if not failures:
+        broken = []
+        if proof_broken(st):
+            broken.append('proof: ' + proof_summary(st))
+        if tprobs:
+            broken.append('translator: %d emitted parsers are outside the command language; first: %s' % (len(tprobs), tprobs[0]['terror']))
+        if broken:
+            ck.violation('; '.join(broken)[:2000], {'broken': broken, 'grammar': tprobs[0]['text'] if tprobs else None}, no_input=True)
+    for e in kfs:
+        w = e.get('witness')
+        if not w:
+            continue
+        its = k3.prepare(os.path.join(work, 'kf_' + e['id']), [None], [w['grammar']])
+        k3.build_all([x for x in its if x['res'].get('wrote')])
+        if its[0]['res'].get('wrote') and 'pb' in its[0] and not its[0]['pb'].rustc_ok:
+            ck.known.append('%s: grammar %r is accepted but the generated parser does not compile: %s' % (e['id'], w['grammar'].replace('\n', ' '), its[0]['pb'].rustc_err[:160].replace('\n', ' ')))
+    feat = collections.Counter(f for it in acc if it.get('g') is not None for f in it['g'].features)
+    nthm = len(st['theorems'])
+    ck.cov = {
+        'obligations': nthm + 1, 'discharged': (nthm if not proof_broken(st) else 0) + (0 if tprobs else 1),
+        'checker_cmd': 'make -C coq ; coqc -Q . LV Props/C11.v (Print Assumptions parsed) ; source audit grep',
+        'trusted_base': lv.TRUSTED_BASE + ['rustc decides "compiles"; the driver implements every callback of the generated trait'],
+        'theorems': st['theorems'],
+        'explanation': 'gating theorem on the driver model (no parser file unless error-free) + every accepted sampled grammar is emitted, translated and compiled by rustc against a full callback implementation; rejected ones are run through the real binary',
+        'programs': len(acc), 'disagreements_checked': len(acc), 'evaluations': len(items) + len(sample_acc) + len(sample_rej),
+        'distinct_nontrivial': len(set(it['text'] for it in acc)) + len(set(it['text'] for it in sample_rej)),
+        'rule': 'random grammars over every operator and declaration kind (empty rules, renamed/created node names incl. adversarial names, parts, predicates); accepted ones are compiled, a sample of accepted/rejected ones goes through `llw -g`; non-trivial = distinct grammar text that was compiled or run through the binary',
+        'accepted': len(acc), 'rejected': len(rej), 'error_codes_of_rejected': dict(codes), 'feature_histogram': dict(feat),
+        'attributed_to_known_findings': known_hits,
+        'samples': [{'grammar': it['text'], 'compiled': it['pb'].rustc_ok} for it in acc[:3] if 'pb' in it],
+    }
+    ck.finish()
+
+
+# ------------------------------------------------------------------ C15 (reproducible, order independent)
+def sets_by_position(dump):
+    """sets keyed by (rule name, pre-order index of the node inside the rule)"""
+    out = {}
+    sets = dump['sema']['sets']
+
+    def visit(x, rule, ctr):
+        i = ctr[0]
+        ctr[0] += 1
+        s = sets.get(str(x['id']), {})
+        out[(rule, i, x['k'])] = {k: tuple(sorted(v)) for k, v in s.items()}
+        for o in (x.get('ops') or []):
+            visit(o, rule, ctr)
+        if x.get('op') is not None:
+            visit(x['op'], rule, ctr)
+    for r in dump['rules']:
+        if r['regex'] is not None and r['name']:
+            visit(r['regex'], r['name'], [0])
+    return out
+
+
+def check_C15(work, args):
+    import subprocess
+    from concurrent.futures import ThreadPoolExecutor
+    ck = lv.Check('C15', level_for('C15'))
+    quick = ck.tier == 'quick'
+    st = proof_step(ck, 'C15')
+    lv.build_impl(bins=True)
+    n = 30 if quick else 600
+    nperm = 2 if quick else 8
+    gs = [gen_grammar.Gen(ck.rng).grammar() for _ in range(n * 3)]
+    sub = os.path.join(work, 'base')
+    items = k3.prepare(sub, gs)
+    acc = [it for it in items if it['res'].get('wrote')][:n]
+    failures = []
+    # (a) repeated runs in fresh processes, different working directories and environments
+    def two_runs(it):
+        outs = []
+        for k in range(2):
+            d = os.path.join(it['dir'], 'run%d' % k, 'deep' * k)
+            os.makedirs(d, exist_ok=True)
+            shutil.copy(os.path.join(it['dir'], 'g.llw'), os.path.join(d, 'g.llw'))
+            env = dict(os.environ)
+            env['LV_NOISE'] = 'x' * (17 * k + 1)
+            env['HOME'] = d
+            r = subprocess.run([lv.LLW_BIN, '-s', 'g.llw'], cwd=d, env=env, stdout=subprocess.PIPE, stderr=subprocess.PIPE, timeout=120)
+            gen = open(os.path.join(d, 'generated.rs'), 'rb').read() if os.path.exists(os.path.join(d, 'generated.rs')) else None
+            outs.append((r.returncode, r.stderr, gen))
+        return outs
+    with ThreadPoolExecutor(16) as ex:
+        runs = list(ex.map(two_runs, acc))
+    for it, (a, b) in zip(acc, runs):
+        if a != b:
+            what = 'exit status' if a[0] != b[0] else ('diagnostics' if a[1] != b[1] else 'generated code')
+            failures.append({'grammar': it['text'], 'what': 'two runs of llw on the same grammar in fresh processes differ in the ' + what})
+    # (b) permutations of the top-level declarations
+    ptexts, pidx = [], []
+    for i, it in enumerate(acc):
+        for k in range(nperm):
+            ptexts.append(it['g'].text_permuted(ck.rng))
+            pidx.append(i)
+    pitems = k3.prepare(os.path.join(work, 'perm'), [None] * len(ptexts), ptexts)
+    for it2, i in zip(pitems, pidx):
+        it2['g'] = acc[i]['g']
+    k3.build_all([it for it in acc] + [it for it in pitems if it['res'].get('wrote')])
+    evals = 0
+    distinct = set()
+    for it2, i in zip(pitems, pidx):
+        base = acc[i]
+        evals += 1
+        if it2['text'] != base['text']:
+            distinct.add(it2['text'])
+        if not it2['res'].get('accepted'):
+            failures.append({'grammar': base['text'], 'permuted': it2['text'], 'what': 'a permutation of the declarations of an accepted grammar is rejected: %s' % [d['code'] for d in it2['res']['diags']]})
+            continue
+        sa, sb = sets_by_position(base['res']['dump']), sets_by_position(it2['res']['dump'])
+        if sa != sb:
+            k0 = [k for k in sa if sa.get(k) != sb.get(k)][:1]
+            failures.append({'grammar': base['text'], 'permuted': it2['text'], 'what': 'analysis sets change under a permutation of the declarations, e.g. at %s: %s vs %s' % (k0, sa.get(k0[0]) if k0 else None, sb.get(k0[0]) if k0 else None)})
+            continue
+
+        def warn_key(it):
+            t = it['text']
+            return sorted((d['code'], d['message'], tuple(t[l['start']:l['end']] for l in d['labels'])) for d in it['res']['diags'])
+        if warn_key(base) != warn_key(it2):
+            failures.append({'grammar': base['text'], 'permuted': it2['text'], 'what': 'warnings change under a permutation of the declarations: %s vs %s' % (warn_key(base)[:3], warn_key(it2)[:3])})
+            continue
+    # parser behaviour: same inputs through the parsers of base and permutations (compared by names)
+    pairs = [(acc[i], it2) for it2, i in zip(pitems, pidx) if 'pb' in it2 and it2['pb'].rustc_ok and 'pb' in acc[i] and acc[i]['pb'].rustc_ok]
+    pairs = pairs[:(30 if quick else 1500)]
+    inputs_cache = {}
+    def behav(pair):
+        base, it2 = pair
+        key = id(base)
+        if key not in inputs_cache:
+            inputs_cache[key] = std_cases(ck, base, 12)
+        cases = inputs_cache[key]
+        ra = k3.run_cases(base, cases)
+        rb = k3.run_cases(it2, cases)
+        out = []
+        for (c, ia, ma, ca), (_, ib, mb, cb) in zip(ra, rb):
+            ta = oracles.show_tree(oracles.impl_tree(base['pb'], ia)) if ia['r'] == 'ok' else ia['r']
+            tb = oracles.show_tree(oracles.impl_tree(it2['pb'], ib)) if ib['r'] == 'ok' else ib['r']
+            if ta != tb or ia.get('diags') != ib.get('diags'):
+                out.append({'grammar': base['text'], 'permuted': it2['text'], 'entry': c[0], 'tokens': c[1], 'bits': c[2],
+                            'what': 'the parsers generated from a grammar and from a permutation of its declarations behave differently: %s / %s vs %s / %s' % (ta[:200], ia.get('diags'), tb[:200], ib.get('diags'))})
+                break
+        return out
+    # inputs are drawn sequentially (one PRNG), runs are parallel
+    for p_ in pairs:
+        if id(p_[0]) not in inputs_cache:
+            inputs_cache[id(p_[0])] = std_cases(ck, p_[0], 12)
+    with ThreadPoolExecutor(16) as ex:
+        for o in ex.map(behav, pairs):
+            failures += o
+    for f in failures[:3]:
+        ck.violation(f['what'], f)
+    if not failures and proof_broken(st):
+        ck.violation('proof: ' + proof_summary(st), {'broken': proof_summary(st)}, no_input=True)
+    nthm = len(st['theorems'])
+    ck.cov = {
+        'obligations': max(1, nthm), 'discharged': nthm if not proof_broken(st) else 0,
+        'checker_cmd': 'make -C coq ; coqc -Q . LV Props/C15.v (Print Assumptions parsed) ; source audit grep',
+        'trusted_base': lv.TRUSTED_BASE + ['cross-process behaviour (hash seeds, working directory, environment) is runtime behaviour observed on the real binary only'],
+        'theorems': st['theorems'],
+        'explanation': 'partial: order-independence theorems on the analysis model where proved; cross-process determinism and parser behaviour under permutation are observed on the real binary and compiled parsers',
+        'programs': len(acc), 'disagreements_checked': evals + len(acc), 'evaluations': evals + 2 * len(acc) + len(pairs),
+        'distinct_nontrivial': len(distinct),
+        'rule': 'accepted random grammars; each run twice in fresh processes (different cwd, HOME, environment size) and printed in %d random declaration orders (token list split and shuffled too); non-trivial = permuted text differs from the original, distinct by text' % nperm,
+        'behaviour_pairs': len(pairs),
+        'samples': [{'grammar': acc[0]['text'], 'permuted': pitems[0]['text']}] if acc and pitems else [],
+    }
+    ck.finish()
